@@ -675,6 +675,10 @@ func (ul *UploadList) Info() storage.UploadInfo {
 
 // Err returns the error state of the query.
 func (ul *UploadList) Err() error {
+	if ul.err == io.EOF {
+		// The query can never match (see part.merge): an empty list, not a failure.
+		return nil
+	}
 	return ul.err
 }
 
@@ -683,5 +687,5 @@ func (ul *UploadList) Close() error {
 	if ul.rows != nil {
 		return ul.rows.Close()
 	}
-	return ul.err
+	return ul.Err()
 }
